@@ -139,8 +139,13 @@ class FakeSocket(object):
             f = self.dead
         if f is None:
             return None
-        self.fired.append((kind, idx, f))
-        self._count("fault_" + f)
+        if self.dead is None:
+            self.fired.append((kind, idx, f))
+            self._count("fault_" + f)
+            # the peer observes the failure too, after what was already sent
+            self.out.eof = True
+            if f == "reset":
+                self.out.reset = True
         self.dead = f
         return f
 
